@@ -4,6 +4,7 @@ go 1.26.0
 
 require (
 	github.com/anishathalye/porcupine v1.3.0
+	go.uber.org/atomic v1.11.0
 	istio.io/istio v0.0.0
 )
 
@@ -88,7 +89,6 @@ require (
 	go.opentelemetry.io/otel/sdk/metric v1.43.0 // indirect
 	go.opentelemetry.io/otel/trace v1.43.0 // indirect
 	go.opentelemetry.io/proto/otlp v1.11.0 // indirect
-	go.uber.org/atomic v1.11.0 // indirect
 	go.uber.org/multierr v1.11.0 // indirect
 	go.uber.org/zap v1.28.0 // indirect
 	go.yaml.in/yaml/v2 v2.4.4 // indirect
